@@ -1317,6 +1317,28 @@ class DataFrame:
     def head(self, n=5):
         return self._take(range(min(n, self._n)))
 
+    def isnull(self):
+        r = DataFrame({k: [Cell(FALSE, c.null, "b", c.dc, c.kf) for c in v] for k, v in self._cols.items()}, index=self._index)
+        r._n = self._n
+        return r
+
+    isna = isnull
+
+    def _rowwise(self, axis, how):
+        if axis not in (1, "columns"):
+            raise Unmodelled("DataFrame.any/all along rows")
+        out = []
+        for i in range(self._n):
+            vals = [_boolval(v[i]) for v in self._cols.values()]
+            out.append(Cell(FALSE, (zor(*vals) if how == "any" else zand(*vals)) if vals else z3.BoolVal(how == "all"), "b"))
+        return Series(out, self._index)
+
+    def any(self, axis=0):
+        return self._rowwise(axis, "any")
+
+    def all(self, axis=0):
+        return self._rowwise(axis, "all")
+
     def merge(self, right, on=None, how="inner", **kw):
         on = [on] if isinstance(on, str) else list(on)
         return merge(self, right, how=how, left_on=on, right_on=on)
